@@ -9,6 +9,8 @@ def run(ctx):
         f = {'pkg/utils/%s/values/zz_verif_c17.go' % ver: 'c17/zz_verif_c17.go'}
         for e in ('VerifC17Int', 'VerifC17Uint', 'VerifC17Scalars'):
             hs.append(H(e, 'pkg/utils/%s/values' % ver, f, unwind=20, timeout_ms=300000))
+        # leaf-lists: the variable-length big.Int encodings are concatenated and re-sliced: case split on every length
+        hs.append(H('VerifC17LeafListUint', 'pkg/utils/%s/values' % ver, f, unwind=20, timeout_ms=300000, opts={'big_bytes_split': True}))
     if ctx.only:
         hs = [h for h in hs if h.entry in ctx.only]
     driver.check_harnesses(ctx, hs)
